@@ -218,6 +218,7 @@ class RecordingConnection(object):
     def __init__(self, con):
         self._con = con
         self.log = []
+        self.txn_calls = []
 
     def cursor(self):
         return RecordingCursor(self._con.cursor(), self.log)
@@ -229,6 +230,23 @@ class RecordingConnection(object):
     def executescript(self, sql):
         self.log.append(sql)
         return self._con.executescript(sql)
+
+    # transaction control of the caller's connection is the caller's business: every use is recorded
+    def commit(self):
+        self.txn_calls.append('commit')
+        return self._con.commit()
+
+    def rollback(self):
+        self.txn_calls.append('rollback')
+        return self._con.rollback()
+
+    def __enter__(self):
+        self.txn_calls.append('with-enter')
+        return self._con.__enter__()
+
+    def __exit__(self, *exc):
+        self.txn_calls.append('with-exit')
+        return self._con.__exit__(*exc)
 
     def __getattr__(self, name):
         return getattr(self._con, name)
@@ -277,6 +295,10 @@ def check_sqlite(case, scratch, stats=None):
         make_db(dbp)
     before = sha(dbp)
     con = sqlite3.connect(dbp)
+    # a third of the cases: the caller has an open write transaction (an uncommitted row) while the query runs
+    pending = (len(case['ident']) + len(case['base'])) % 3 == 0
+    if pending:
+        con.execute("insert into j2 values ('pending', 'uncommitted')")
     rec = RecordingConnection(con)
     out = os.path.join(scratch, 'c06_sql_out.csv')
     ident = case['ident']
@@ -291,14 +313,26 @@ def check_sqlite(case, scratch, stats=None):
         rbql_sqlite.query_sqlite_to_csv(query, rec, table, out, ',', 'quoted', 'utf-8', [])
     except Exception as e:
         err = engine.err_info(e)
-    finally:
-        con.close()
+    txn_state = None
+    if pending:
+        still_open = con.in_transaction
+        n_pending = con.execute("select count(*) from j2 where name = 'pending'").fetchone()[0]
+        other = sqlite3.connect(dbp)
+        n_committed = other.execute("select count(*) from j2 where name = 'pending'").fetchone()[0]
+        other.close()
+        txn_state = {'still_in_transaction': still_open, 'pending_rows_seen_by_caller': n_pending, 'pending_rows_committed_to_file': n_committed}
+        con.rollback()
+    con.close()
     after = sha(dbp)
     hostile = re.match(r'^[A-Za-z0-9_]+$', ident) is None
     if stats is not None:
-        stats.case(case, hostile or err is not None, ['sqlite', 'sqlite-hostile-id' if hostile else 'sqlite-plain-id', 'sqlite-' + case['where']] + (['sqlite-failing'] if err else ['sqlite-success']),
+        stats.case(case, hostile or err is not None, ['sqlite', 'sqlite-hostile-id' if hostile else 'sqlite-plain-id', 'sqlite-' + case['where']] + (['sqlite-failing'] if err else ['sqlite-success']) + (['sqlite-open-transaction'] if pending else []),
                    sample={'query': query, 'input_table': table, 'sql_sent': rec.log, 'error': err})
-    ctx = {'query': query, 'input_table': table, 'sql_sent': rec.log, 'error': err}
+    ctx = {'query': query, 'input_table': table, 'sql_sent': rec.log, 'error': err, 'transaction': txn_state, 'transaction_calls': rec.txn_calls}
+    if pending and txn_state != {'still_in_transaction': True, 'pending_rows_seen_by_caller': 1, 'pending_rows_committed_to_file': 0}:
+        if before != after:
+            make_db(dbp)
+        raise Violation('sqlite-callers-open-transaction-disturbed', ctx)
     for sql in rec.log:
         if not SQL_OK.match(sql):
             raise Violation('sql-string-outside-whitelist', ctx)
